@@ -8,6 +8,8 @@ pub mod c08;
 pub mod c11;
 pub mod c12;
 pub mod c14;
+pub mod c27;
+pub mod c28;
 pub mod c30;
 pub mod c31;
 pub mod c32;
@@ -25,6 +27,9 @@ pub fn registry() -> &'static [Check] {
         Check { meta: &c11::META, run: c11::run, shards: (16, 16) },
         Check { meta: &c12::META, run: c12::run, shards: (16, 16) },
         Check { meta: &c14::META, run: c14::run, shards: (16, 16) },
+        Check { meta: &c27::META27, run: c27::run27, shards: (8, 16) },
+        Check { meta: &c27::META29, run: c27::run29, shards: (8, 16) },
+        Check { meta: &c28::META, run: c28::run, shards: (8, 16) },
         Check { meta: &c30::META, run: c30::run, shards: (16, 16) },
         Check { meta: &c31::META, run: c31::run, shards: (8, 16) },
         Check { meta: &c32::META, run: c32::run, shards: (16, 16) },
